@@ -293,6 +293,10 @@ func (d fakeDB) Unlock(c context.Context, id *url.URL) error {
 	if d.w.sched != nil {
 		d.w.sched.release(k)
 	}
+	if d.w.spec["unlockFails"] == true {
+		// the lock is released, yet the application reports an error: nothing in the library depends on Unlock's result
+		return d.w.failed()
+	}
 	d.w.resp(okR(nil))
 	return nil
 }
